@@ -82,12 +82,14 @@ impl RxCtrState {
         // in either direction. Encrypted only allows in forward direction
         else if is_forward {
             self.max_ctr = msg_ctr;
-            if udiff < MSG_RX_STATE_BITMAP_LEN {
+            if udiff <= MSG_RX_STATE_BITMAP_LEN {
                 // The previous max_ctr is now the actual counter
-                self.ctr_bitmap <<= udiff;
+                self.ctr_bitmap = ((self.ctr_bitmap as u32) << udiff) as u16;
                 self.insert(udiff - 1);
             } else {
-                self.ctr_bitmap = 0xffff;
+                // The whole window moved past everything received so far: the counters
+                // just below the new max were skipped, not received
+                self.ctr_bitmap = 0;
             }
             true
         } else if !is_encrypted {
